@@ -47,6 +47,9 @@ class _Expr(ast.NodeTransformer):
         if isinstance(n.func, ast.Name) and n.func.id == 'getattr' and len(n.args) == 2 and not n.keywords and isinstance(n.args[1], ast.Constant) \
                 and isinstance(n.args[1].value, str) and n.args[1].value.isidentifier():
             return ast.copy_location(ast.Attribute(value=n.args[0], attr=n.args[1].value, ctx=ast.Load()), n)
+        # 17. vars(X) is X.__dict__
+        if isinstance(n.func, ast.Name) and n.func.id == 'vars' and len(n.args) == 1 and not n.keywords:
+            return ast.copy_location(ast.Attribute(value=n.args[0], attr='__dict__', ctx=ast.Load()), n)
         return n
 
     def visit_Compare(self, n):
@@ -159,8 +162,10 @@ def _block(stmts, fn_counts):
     stmts = list(stmts)
     while i < len(stmts):
         s = stmts[i]
-        # 15. a loop over a short display of literals whose body neither breaks nor continues is the body once per literal
+        # 15. a loop over a short display of literals whose body neither breaks nor continues is the body once per literal (only for loops that
+        #     came with an expanded helper, or that read attributes by name: reference code keeps its loops, rules name them)
         if isinstance(s, ast.For) and isinstance(s.iter, (ast.Tuple, ast.List)) and 1 <= len(s.iter.elts) <= 4 and isinstance(s.target, ast.Name) \
+                and (__import__('re').search(r'__h\d+$', s.target.id) or any(isinstance(x, ast.Call) and isinstance(x.func, ast.Name) and x.func.id == 'getattr' for b_ in s.body for x in ast.walk(b_))) \
                 and all(isinstance(e_, ast.Constant) and isinstance(e_.value, (str, int, bytes)) for e_ in s.iter.elts) and not s.orelse \
                 and not any(isinstance(x, (ast.Break, ast.Continue, ast.For, ast.While, ast.AsyncFor, ast.FunctionDef, ast.AsyncFunctionDef, ast.Lambda))
                             for b_ in s.body for x in ast.walk(b_)) \
